@@ -61,7 +61,7 @@ def ledger(rep, prog):
             bad = [x for x in ss if not x.discharge][0]
             rep.violation(rule, key, "panic-capable site with no discharge: %s%s. Reachable from the API; no dominating guard, range fact "
                           "or reviewed table entry covers it" % (bad.detail, " (debug builds only)" if bad.debug_only else ""), bad.span)
-    rep.floor(rule, "panic-capable sites reachable from the API", len(sites), 300)
+    rep.floor(rule, "panic-capable sites reachable from the API", len(sites), 150)
     rep.note("discharge classes: %s" % sorted(counts.items()))
     stale = [table[i]["pattern"] for i in range(len(table)) if i not in used]
     if stale:
@@ -102,7 +102,7 @@ def p_reserved_arm(rep, prog):
             good = bool(states) and all(env.get(("pv", dl, ("as1", ".0", ".0"))) == 1 for _, env in states)
             rep.check(good, rule, "reserve_or_steal|rem", "local % class_len only on the reserved arm",
                       "local % class_len is computed for a stolen-from class that may have 0 slots", t["span"])
-    rep.floor(rule, "slot-count sites in reserve_or_steal", n, 3)
+    rep.floor(rule, "slot-count sites in reserve_or_steal", n, 1)
 
 
 def r_reserved_class_stable(rep, prog):
@@ -139,7 +139,7 @@ def r_reserved_class_stable(rep, prog):
                       "%s changes the class of an entry that may be reserved: the slot that holds the reservation keeps its own class, "
                       "and Tree::unreserve_add then panics with `unreserve invalid class` when the policy rates (slot class, new class) "
                       "as Steal/Invalid" % fn, t["span"])
-    rep.floor(rule, "class-changing sites in Tree methods", n, 3)
+    rep.floor(rule, "class-changing sites in Tree methods", n, 2)
 
 
 def p_change_id(rep, prog):
